@@ -238,12 +238,13 @@ def rule_take_axis(ctx):
         newaxes = cons[0][2][1]
         s = T.show(newaxes)
         # (the other axes may be copies or the operand's own objects: same labels either way)
-        if not (newaxes[0] == 'comp' and newaxes[2][0] == 'ifexp' and newaxes[2][3] == at[0]
-                and ((newaxes[2][2][0] == 'call' and T.call_name(newaxes[2][2]) == 'copy' and T.call_receiver(newaxes[2][2])[0] == 'elem') or newaxes[2][2][0] == 'elem')):
+        # (conditional expressions are canonical: ifexp(a == b, value when equal, value otherwise))
+        if not (newaxes[0] == 'comp' and newaxes[2][0] == 'ifexp' and newaxes[2][2] == at[0]
+                and ((newaxes[2][3][0] == 'call' and T.call_name(newaxes[2][3]) == 'copy' and T.call_receiver(newaxes[2][3])[0] == 'elem') or newaxes[2][3][0] == 'elem')):
             ctx.violated('R3', fi, 'newaxes = ' + s[:140], 'result axes: every other axis (or a copy of it) and the taken axis in place of the indexed one', node=p.node)
             continue
         cond = newaxes[2][1]
-        if not (cond[0] == 'cmp' and cond[1] == '!=' and 'name' in T.show(cond)):
+        if not (cond[0] == 'cmp' and cond[1] == '==' and 'name' in T.show(cond)):
             ctx.violated('R3', fi, 'newaxes = ' + s[:140], 'the replaced axis must be selected by name', node=p.node)
             continue
         ctx.holds('R3', 'take_axis: values.take(indices, axis=pos) / axes[pos].take(indices)')
